@@ -1,5 +1,4 @@
 import Cherab.Props.C06TableAll
 open Cherab.Props.C06Table
-#print axioms of
 #print axioms tables_wellformed
 #print axioms refines_kv_current
